@@ -4,7 +4,7 @@
    otherwise 1..1 unless marked ? — the writer marks the members of a [0..*] group); identifiers are the safe-named feature names, [lift σ] reads a selection through them. *)
 From Coq Require Import List Bool String ZArith.
 From FM Require Import Base.Result Base.AstOp Model.Ast Model.FM Model.Queries Model.Sem Format.Export
-     Proofs.C18Facts Proofs.C11Facts.
+     Base.Str Proofs.PositionalFacts Proofs.C18Facts Proofs.C11Facts.
 Import ListNotations.
 Local Open Scope list_scope.
 
@@ -33,6 +33,15 @@ Print Assumptions C11_every_operator_translated.
 Theorem C11_constraint_meaning : forall n e σ, node_wf n = true -> clafer_node n = Ok e -> cx_eval (lift σ) e = evalb σ n.
 Proof. exact clafer_node_sound. Qed.
 Print Assumptions C11_constraint_meaning.
+
+(* a finite real attribute value is written as a Clafer double literal without exponent mark; a model with an infinity
+   or NaN among its attribute values is not exported at all (C11Facts.clafer_float_literals) *)
+Theorem C11_real_values_without_exponent : forall r t, py_positional r = Some t ->
+  clafer_value (VFloat r) = t /\ no_e t = true.
+Proof.
+  intros r t H. split; [cbn [clafer_value]; rewrite H; reflexivity|exact (py_positional_no_exponent _ _ H)].
+Qed.
+Print Assumptions C11_real_values_without_exponent.
 
 (* non-vacuity: single children, an xor group, a [2..3] group, attributes, a name needing quotes *)
 Definition ex11 : fm :=
